@@ -416,16 +416,38 @@ def check_size(ctx):
         ("Lt", reserved, size, "a device is larger than the reserved area: reject `size <= FEOX_DATA_START_BLOCK * FEOX_BLOCK_SIZE`"),
         ("Lt", maxdev, size, "a device is at most MAX_DEVICE_SIZE: reject `size > MAX_DEVICE_SIZE`"),
     ])
-    mo = ctx.sites(b, R.call("u64::is_multiple_of", "is_multiple_of"), inst, exact=1)
     oks = A.ok_nodes(b)
     ctx.check(len(oks) >= 1, inst, "anchor", b.path, "Ok return present", None)
+
+    def unit(e):
+        while e.k == "cast":
+            e = e.a[0]
+        return e.k == "const" and e.has_const(name="FEOX_BLOCK_SIZE")
+    # alignment: `size.is_multiple_of(BLOCK)` or `size % BLOCK == 0`
+    mo = [n.id for n in b.calls() if call_matches(n.ev, "is_multiple_of")]
+    aligned = []
     for m in mo:
         a0, a1 = R.arg_expr(b, b.nodes[m], 0), R.arg_expr(b, b.nodes[m], 1)
-        while a1.k == "cast":
-            a1 = a1.a[0]
-        ctx.check(size(a0) and a1.k == "const" and a1.has_const(name="FEOX_BLOCK_SIZE"), inst, "PIN", b.path,
+        ctx.check(size(a0) and unit(a1), inst, "PIN", b.path,
                   "a device is a whole number of FEOX_BLOCK_SIZE blocks (the unit every later stage divides by)", b.where(m), {"unit": a1.show()[:60]})
-        R.guard(ctx, inst, b, oks, R.guard_edges_for_call(b, [m], "true"), "Ok only for a block-aligned size")
+        aligned += R.guard_edges_for_call(b, [m], "true")
+
+    def rem_zero(e):
+        if not (e.k == "bin" and e.extra == "Eq"):
+            return False
+        for x, y in ((e.a[0], e.a[1]), (e.a[1], e.a[0])):
+            if x.k == "bin" and x.extra == "Rem" and y.k == "const" and (y.extra or {}).get("val") == 0:
+                return True
+        return False
+    for s_ in A.pred_switches(b, rem_zero):
+        r_ = A.switch_info(b, s_).root
+        x = r_.a[0] if r_.a[0].k == "bin" else r_.a[1]
+        ctx.check(size(x.a[0]) and unit(x.a[1]), inst, "PIN", b.path,
+                  "a device is a whole number of FEOX_BLOCK_SIZE blocks (the unit every later stage divides by)", b.where(s_), {"unit": x.a[1].show()[:60]})
+        aligned += [(s_, l) for l, v in A.switch_info(b, s_).edge_vals.items() if v == "true"]
+    ctx.check(bool(aligned), inst, "anchor", b.path, "the size is tested for block alignment (is_multiple_of or % == 0)", None)
+    if aligned:
+        R.guard(ctx, inst, b, oks, aligned, "Ok only for a block-aligned size")
     e1 = A.pred_edges(b, lambda e: e.k == "bin" and e.extra == "Lt" and reserved(e.a[0]) and size(e.a[1]), "true")
     e2 = A.pred_edges(b, lambda e: e.k == "bin" and e.extra == "Lt" and maxdev(e.a[0]) and size(e.a[1]), "false")
     if e1:
